@@ -52,7 +52,7 @@ func (d *fakeDocker) ServeHTTP(w http.ResponseWriter, r *http.Request) {
 	}
 	d.calls = append(d.calls, id+":"+st)
 	switch st {
-	case "running", "exited", "dead":
+	case "running", "exited", "dead", "paused", "restarting", "created":
 		w.Header().Set("Content-Type", "application/json")
 		_ = json.NewEncoder(w).Encode(map[string]interface{}{"Id": id, "Name": "/k8s_POD_" + id, "State": map[string]interface{}{"Status": st, "Running": st == "running"}})
 	case "notfound":
@@ -174,7 +174,8 @@ func c17Job(shard, nshards int, tier string) Job {
 			panic(err)
 		}
 		defer h.close()
-		states := []string{"running", "exited", "dead", "notfound", "err500", "refused"}
+		// paused, restarting and created containers exist and have not exited: their state is as untouchable as a running one's
+		states := []string{"running", "exited", "dead", "notfound", "err500", "refused", "paused", "restarting", "created"}
 		ids := []string{"c0aaaaaaaaaa", "c1bbbbbbbbbb", "c2cccccccccc"}
 		n := 0
 		for _, s0 := range states {
@@ -317,9 +318,9 @@ func c17Case(r *caseResult, scen string, h *gcHarness, ids []string, st map[stri
 func init() {
 	register(&Property{ID: "C17", Level: "fault_enumeration", QuickS: 100, ThoroughS: 400,
 		Assume: []string{"docker mode only: the runtime is a fake docker engine API on a unix socket (DOCKER_HOST); the containerd/CRI path and the veth collector are not exercised",
-			"3 containers, each running / exited / dead / not found / inspect error 500 / connection dropped; directories hold state files, port files, IP files in three content forms, plus entries that must never be removed (non-IP names, empty IP file, sub-directories)",
+			"3 containers, each running / paused / restarting / created / exited / dead / not found / inspect error 500 / connection dropped; directories hold state files, port files, IP files in three content forms, plus entries that must never be removed (non-IP names, empty IP file, sub-directories)",
 			"files in gc_dirs whose names are not container ids are, by the flag's own documentation, treated as ids; none are placed there"},
-		Rule: "all 6^3 container state combinations x (no injected error | the k-th inspect call of the first round answering 500, for every k (quick: k<=6)) x three GC rounds through the run-once hook; safety after every round (nothing removed without a dead answer, nothing of live/unknown containers, no non-container entry), " +
+		Rule: "all 9^3 container state combinations x (no injected error | the k-th inspect call of the first round answering 500, for every k (quick: k<=6)) x three GC rounds through the run-once hook; safety after every round (nothing removed without a dead answer, nothing of live/unknown containers, no non-container entry), " +
 			"liveness after two fault-free rounds, and port-clean callbacks (also with a callback that fails persistently for one container); plus the collector with the real daemon's callback over files and NAT rules the daemon wrote itself (6 x 2 container states x 5 port-file forms); distinct/non-trivial = distinct (states, fault position, remaining files)",
 		Jobs: func(tier string) []Job {
 			var jobs []Job
